@@ -2916,6 +2916,9 @@ func (uconn *UConn) ApplyPreset(p *ClientHelloSpec) error {
 						// only do this once for the first non-grease curve
 						uconn.HandshakeState.State13.KeyShareKeys.Ecdhe = ecdheKey
 						preferredCurveIsSet = true
+					} else {
+						// keep the key of every further share: the server may pick any of them
+						uconn.HandshakeState.State13.KeyShareKeys.ExtraEcdhe = append(uconn.HandshakeState.State13.KeyShareKeys.ExtraEcdhe, ecdheKey)
 					}
 				}
 			}
